@@ -263,6 +263,7 @@ class WSStream:
         if message is None:  # ASGI App has finished sending messages
             # Cleanup if required
             if self.state == ASGIWebsocketState.HANDSHAKE:
+                self.state = ASGIWebsocketState.HTTPCLOSED
                 await self._send_error_response(500)
             elif self.state == ASGIWebsocketState.CONNECTED:
                 await self._send_wsproto_event(CloseConnection(code=CloseReason.INTERNAL_ERROR))
@@ -366,6 +367,7 @@ class WSStream:
         body_suppressed = suppress_body("GET", self.response["status"])
         if self.state == ASGIWebsocketState.HANDSHAKE:
             headers = build_and_validate_headers(self.response["headers"])
+            self.state = ASGIWebsocketState.RESPONSE
             await self.send(
                 Response(
                     stream_id=self.stream_id,
@@ -373,7 +375,6 @@ class WSStream:
                     headers=headers,
                 )
             )
-            self.state = ASGIWebsocketState.RESPONSE
         if not body_suppressed:
             await self.send(Body(stream_id=self.stream_id, data=bytes(message.get("body", b""))))
         if not message.get("more_body", False):
